@@ -25,8 +25,8 @@
 static long cur_case;
 static char ctx[1200];
 
-enum kind { K_OK, K_UNTRUSTED, K_VIA_INTER, K_VIA_UNTRUSTED_INTER, K_EXPIRED, K_NOTYET, K_REVOKED, K_INTER_REVOKED, K_EKU_SERVER_ONLY, K_EKU_CLIENT_ONLY, K_WRONGNAME, K_INTER_EXPIRED, K_N };
-static const char *const kind_name[K_N] = { "valid", "untrusted-root", "via-trusted-intermediate", "via-untrusted-intermediate", "expired", "not-yet-valid", "revoked", "intermediate-revoked", "eku-serverAuth-only", "eku-clientAuth-only", "wrong-name", "intermediate-expired" };
+enum kind { K_OK, K_UNTRUSTED, K_VIA_INTER, K_VIA_UNTRUSTED_INTER, K_EXPIRED, K_NOTYET, K_REVOKED, K_INTER_REVOKED, K_EKU_SERVER_ONLY, K_EKU_CLIENT_ONLY, K_WRONGNAME, K_INTER_EXPIRED, K_UNTRUSTED_LONG_SKI, K_UNTRUSTED_LONG_SUBJECT, K_N };
+static const char *const kind_name[K_N] = { "valid", "untrusted-root", "via-trusted-intermediate", "via-untrusted-intermediate", "expired", "not-yet-valid", "revoked", "intermediate-revoked", "eku-serverAuth-only", "eku-clientAuth-only", "wrong-name", "intermediate-expired", "untrusted-root-3000-byte-key-identifier", "untrusted-root-1300-character-subject" };
 
 static struct vpki_ent *rootA, *rootB, *interA, *interB, *interR, *interX;
 static struct vpki_ent *leaf[K_N];
@@ -55,6 +55,8 @@ static void make_pki(void)
         case K_EKU_CLIENT_ONLY: o.eku = VPKI_EKU_CLIENT; break;
         case K_WRONGNAME: o.san_dns = bad; cn = "other.verif.test"; break;
         case K_INTER_EXPIRED: iss = interX; break;
+        case K_UNTRUSTED_LONG_SKI: iss = rootB; o.ski_len = 3000; break;            /* what the verification failure is reported about is under the peer's control */
+        case K_UNTRUSTED_LONG_SUBJECT: iss = rootB; o.subject_extra_ous = 21; break;
         default: break;
         }
         leaf[k] = vpki_make(cn, iss, &o);
@@ -75,7 +77,7 @@ static void make_pki(void)
 struct policy { bool auth, check_time, check_crl, verify_name, crl_expired; int trust; /* 0 root-A, 1 root-B */ bool names_from_addr; bool extra_names; bool explicit_mismatch; /* explicit names matching no certificate, while the address is the certificate's DNS name */ };
 struct side { struct policy p; enum kind cred; bool by_value; bool tls_client_role; };
 
-static bool root_is_B(enum kind k) { return k == K_UNTRUSTED || k == K_VIA_UNTRUSTED_INTER; }
+static bool root_is_B(enum kind k) { return k == K_UNTRUSTED || k == K_VIA_UNTRUSTED_INTER || k == K_UNTRUSTED_LONG_SKI || k == K_UNTRUSTED_LONG_SUBJECT; }
 
 /* does X's policy admit Y's credentials, Y playing the given TLS role? */
 static bool admits(const struct policy *x, enum kind y, bool y_is_tls_server, char *why, size_t cap)
